@@ -6,6 +6,13 @@ pub mod c04;
 pub mod c13;
 pub mod c14;
 pub mod c15;
+#[cfg(lucid_suggest_verif)]
+pub mod c16;
+#[cfg(lucid_suggest_verif)]
+pub mod c17;
+pub mod c18;
+#[cfg(lucid_suggest_verif)]
+pub mod c19;
 pub mod c05;
 pub mod c09;
 pub mod c10;
@@ -22,6 +29,13 @@ pub fn make(id: &str, tier: Tier) -> Option<Box<dyn Prop>> {
         "C05" => Box::new(c05::C05::new(tier)),
         "C09" => Box::new(c09::C09::new(tier)),
         "C15" => Box::new(c15::C15::new(tier)),
+        #[cfg(lucid_suggest_verif)]
+        "C16" => Box::new(c16::C16::new(tier)),
+        #[cfg(lucid_suggest_verif)]
+        "C17" => Box::new(c17::C17::new(tier)),
+        "C18" => Box::new(c18::C18::new(tier)),
+        #[cfg(lucid_suggest_verif)]
+        "C19" => Box::new(c19::C19::new(tier)),
         "C10" => Box::new(c10::C10::new(tier)),
         _ => return None,
     })
